@@ -146,66 +146,11 @@ func tallyAlphabet() []event {
 
 var worlds = []*wdef{
 	{
-		// before any status record exists (they are first written by EndBlock(2))
-		name: "early", nVals: 4, votePct: 50,
-		prefix: nil,
-		alphabet: []event{
-			ev(),
-			ev(alleg("A", v1, v3)),
-			ev(vote("A", v1, true)),
-			ev(vote("A", v2, true)),
-		},
-		depth: map[string]int{"quick": 5, "thorough": 6},
-		share: 0.1,
-	},
-	{
-		// who may open an allegation, against whom, under which request id
-		name: "open", nVals: 4, votePct: 50,
-		prefix: quiet(2),
-		alphabet: []event{
-			ev(),
-			ev(alleg("A", v1, v3)),
-			ev(alleg("A2", v2, v3)),       // a second request against the same accused
-			ev(alleg("A", v4, v2)),        // a request id already in use
-			ev(alleg("S", v3, v3)),        // self-accusation
-			ev(alleg("X", user, v3)),      // outsider: a user key
-			ev(alleg("Y", candidate, v3)), // outsider: a candidate that never staked
-			ev(alleg("B", v3, v4)),        // the accused of A reports somebody else
-			ev(alleg("C", v4, v1)),
-			ev(vote("A", v1, true)),
-			ev(vote("A", v2, true)),
-			ev(vote("A", candidate, true)),
-			ev(vote("B", v1, true)),
-			ev(unstake(v4, -1)),
-			ev(alleg("E", v1, v4)), // possibly against a validator that has left
-		},
-		depth: map[string]int{"quick": 3, "thorough": 5},
-		share: 0.2,
-	},
-	{
-		name: "tally67", nVals: 4, votePct: 67,
+		name: "tally50", nVals: 4, votePct: 50,
 		prefix:   seq(quiet(2), []event{ev(alleg("A", v1, v3))}),
 		alphabet: tallyAlphabet(),
-		depth:    map[string]int{"quick": 4, "thorough": 7},
-		share:    0.3,
-	},
-	{
-		// three validators: thresholds 1.5 / 2
-		name: "three", nVals: 3, votePct: 50,
-		prefix: seq(quiet(2), []event{ev(alleg("A", v1, v3))}),
-		alphabet: []event{
-			ev(),
-			ev(vote("A", v1, true)),
-			ev(vote("A", v2, true)),
-			ev(vote("A", v3, false)),
-			ev(vote("A", v2, false)),
-			ev(vote("A", v1, false)),
-			ev(vote("A", user, true)),
-			ev(unstake(v2, -1)),
-			ev(vote("A", v1, true), vote("A", v2, true)),
-		},
-		depth: map[string]int{"quick": 5, "thorough": 7},
-		share: 0.3,
+		depth:    map[string]int{"quick": 5, "thorough": 7},
+		share:    0.5,
 	},
 	{
 		// two allegations against different validators open at once: two verdicts in one block, votes of
@@ -226,7 +171,7 @@ var worlds = []*wdef{
 			ev(vote("A", v1, true), vote("B", v2, true)),
 		},
 		depth: map[string]int{"quick": 5, "thorough": 7},
-		share: 0.5,
+		share: 0.3,
 	},
 	{
 		// life of a frozen validator: V3 unstaked a part earlier (so that something is withdrawable and
@@ -252,14 +197,88 @@ var worlds = []*wdef{
 			ev(release(v3), stake(v3, 100000)),
 		},
 		depth: map[string]int{"quick": 5, "thorough": 7},
+		share: 0.4,
+	},
+	{
+		// V4 unstaked everything and has dropped out (its validator record is gone) before anything else
+		// happens: allegations against and by a validator that has left, its return by staking again
+		name: "left", nVals: 4, votePct: 50,
+		prefix: seq(quiet(2), []event{ev(unstake(v4, -1))}, quiet(2)),
+		alphabet: []event{
+			ev(),
+			ev(alleg("E", v1, v4)),
+			ev(vote("E", v1, true)),
+			ev(vote("E", v2, true)),
+			ev(vote("E", v3, false)),
+			ev(vote("E", v1, true), vote("E", v2, true)),
+			ev(alleg("F", v4, v1)), // the validator that left reports
+			ev(vote("E", v4, false)),
+			ev(stake(v4, 1000000)), // it comes back
+		},
+		depth: map[string]int{"quick": 4, "thorough": 6},
+		share: 0.3,
+	},
+	{
+		// three validators: thresholds 1.5 / 2
+		name: "three", nVals: 3, votePct: 50,
+		prefix: seq(quiet(2), []event{ev(alleg("A", v1, v3))}),
+		alphabet: []event{
+			ev(),
+			ev(vote("A", v1, true)),
+			ev(vote("A", v2, true)),
+			ev(vote("A", v3, false)),
+			ev(vote("A", v2, false)),
+			ev(vote("A", v1, false)),
+			ev(vote("A", user, true)),
+			ev(unstake(v2, -1)),
+			ev(vote("A", v1, true), vote("A", v2, true)),
+		},
+		depth: map[string]int{"quick": 5, "thorough": 7},
+		share: 0.3,
+	},
+	{
+		name: "tally67", nVals: 4, votePct: 67,
+		prefix:   seq(quiet(2), []event{ev(alleg("A", v1, v3))}),
+		alphabet: tallyAlphabet(),
+		depth:    map[string]int{"quick": 4, "thorough": 7},
+		share:    0.5,
+	},
+	{
+		// who may open an allegation, against whom, under which request id
+		name: "open", nVals: 4, votePct: 50,
+		prefix: quiet(2),
+		alphabet: []event{
+			ev(),
+			ev(alleg("A", v1, v3)),
+			ev(alleg("A2", v2, v3)),       // a second request against the same accused
+			ev(alleg("A", v4, v2)),        // a request id already in use
+			ev(alleg("S", v3, v3)),        // self-accusation
+			ev(alleg("X", user, v3)),      // outsider: a user key
+			ev(alleg("Y", candidate, v3)), // outsider: a candidate that never staked
+			ev(alleg("B", v3, v4)),        // the accused of A reports somebody else
+			ev(alleg("C", v4, v1)),
+			ev(vote("A", v1, true)),
+			ev(vote("A", v2, true)),
+			ev(vote("A", candidate, true)),
+			ev(vote("B", v1, true)),
+			ev(unstake(v4, -1)),
+			ev(alleg("E", v1, v4)), // possibly against a validator that has left
+		},
+		depth: map[string]int{"quick": 3, "thorough": 5},
 		share: 0.6,
 	},
 	{
-		name: "tally50", nVals: 4, votePct: 50,
-		prefix:   seq(quiet(2), []event{ev(alleg("A", v1, v3))}),
-		alphabet: tallyAlphabet(),
-		depth:    map[string]int{"quick": 5, "thorough": 7},
-		share:    1.0,
+		// before any status record exists (they are first written by EndBlock(2))
+		name: "early", nVals: 4, votePct: 50,
+		prefix: nil,
+		alphabet: []event{
+			ev(),
+			ev(alleg("A", v1, v3)),
+			ev(vote("A", v1, true)),
+			ev(vote("A", v2, true)),
+		},
+		depth: map[string]int{"quick": 5, "thorough": 6},
+		share: 1.0,
 	},
 }
 
